@@ -255,7 +255,7 @@ def _run_symbolic(ob, case, res, tmo, seed):
     if not paths:
         res.update(status='vacuous', reason='no feasible path (contradictory assumptions)'); return
     used = set(); evaluated = set(); ngoals = 0
-    refuted = None; undecided = None
+    refuted = None; undecided = None; probed = False
     for I, outcome in paths:
         used |= I.used_contracts; evaluated |= I.evaluated
         pc = list(I.solver.assertions())
@@ -299,7 +299,17 @@ def _run_symbolic(ob, case, res, tmo, seed):
             if z3.is_true(ts):
                 res['backend']['rewriter'] = res['backend'].get('rewriter', 0) + 1
                 continue
-            # 2. the GF(2)-affine / adder canonical form
+            # 2. a large goal that the rewriter did not close: a few concrete runs of the same obligation body first (a failing
+            #    one is a counterexample of the real code, replayed natively by the driver like a solver model) -- the
+            #    canonical form and the solvers can take minutes on such a goal before giving up
+            if not probed and _dag_exceeds(ts, 30000):
+                probed = True
+                hit = _probe(ob, case, c.symbols, seed)
+                if hit is not None:
+                    refuted = {'label': hit[0], 'inputs': hit[1], 'detail': 'concrete run of the obligation body (found before the solvers were asked)'}
+                    stop = True
+                    break
+            # 3. the GF(2)-affine / adder canonical form
             try:
                 if canon.closes(t) or (ts is not t and canon.closes(ts)):
                     res['backend']['gf2-canon'] = res['backend'].get('gf2-canon', 0) + 1
@@ -331,6 +341,26 @@ def _run_symbolic(ob, case, res, tmo, seed):
     else:
         res['status'] = 'discharged'
         res['selfcheck'] = _differential(ob, case, seed, holder[-1].symbols, contracts)
+
+def _dag_exceeds(t, limit):
+    seen = set(); stack = [t]
+    while stack:
+        x = stack.pop()
+        i = x.get_id()
+        if i in seen: continue
+        seen.add(i)
+        if len(seen) > limit: return True
+        stack.extend(x.children())
+    return False
+
+def _probe(ob, case, symbols, seed, n=3):
+    rng = random.Random(seed * 7919 + 5)
+    for k in range(n):
+        inputs = {name: rng.randint(lo, hi) for name, (v, lo, hi) in symbols.items() if isinstance(v, SymInt)}
+        r = run_concrete(ob, case, inputs)
+        if r['outcome'] == 'fails':
+            return (r['failures'][0][0] if r['failures'] else 'exception: %s' % r['exception']), r['asked']
+    return None
 
 def _ctx_of(holder, I):
     for c in reversed(holder):
